@@ -199,7 +199,7 @@ pub fn c01_scn(name: &str, full: bool) -> ChatScn {
     // the quick tier explores comma JOINs and registration commands of registered clients in
     // a scenario of their own (`c01-audience-lists`): the product with the rank/kick/rename
     // churn is the thorough tier's
-    let churn: Vec<&'static str> = if name.ends_with("-lists") { vec!["JOIN #x", "JOIN #y", "JOIN #x,#y", "PART #x", "CAP END", "QUIT"] } else { churn };
+    let churn: Vec<&'static str> = if name.ends_with("-lists") { vec!["JOIN #x", "JOIN #y", "JOIN #x,#y", "PART #x", "PART #y", "CAP END", "QUIT"] } else { churn };
     for slot in 0..3 {
         for t in &churn {
             s.alphabet_for.push((slot, t));
@@ -207,7 +207,8 @@ pub fn c01_scn(name: &str, full: bool) -> ChatScn {
     }
     s.ends = vec!["eof"];
     // the churn steps are judged only on the state that determines audiences
-    s.focus = Focus::state_only(&[Cat::Membership, Cat::Ranks, Cat::UserExistence, Cat::ChanExistence, Cat::UserIdentity, Cat::ChanFlags]);
+    // (the configured rank lists of #y are configuration: a JOIN consults them, nothing rewrites them)
+    s.focus = Focus::state_only(&[Cat::Membership, Cat::Ranks, Cat::UserExistence, Cat::ChanExistence, Cat::UserIdentity, Cat::ChanFlags, Cat::ChanConfig]);
     s.invariants = vec!["rank-set", "membership-symmetry", "dangling-member"];
     let mut probes: Vec<&'static str> = vec![];
     for t in ["PRIVMSG #x :hi", "PRIVMSG #x :a b :c d", "PRIVMSG #x ::lead", "PRIVMSG #x :", "PRIVMSG #x :trail  ", "NOTICE {peer} : ", "NOTICE #x :hi", "PRIVMSG {peer} :hi", "PRIVMSG {peer} :a b :c d", "NOTICE {peer} :", "PRIVMSG {me} :hi", "PRIVMSG #x,{peer} :hi", "NOTICE #x,{peer} :hi", "PRIVMSG #x,#x :hi", "PRIVMSG {peer},{peer} :hi", "PRIVMSG #x,{peer},#x :hi", "NOTICE {peer},#x,nosuch,{peer} :hi", "PRIVMSG #x,nosuch,#nochan :hi", "NOTICE #x,nosuch,#nochan :hi", "PRIVMSG @#x :hi", "PRIVMSG +#x :hi", "NOTICE +#x :hi", "PRIVMSG %#x :hi", "PRIVMSG ~#x :hi", "PRIVMSG @+#x :hi", "NOTICE @+#x :hi", "PRIVMSG #y :hi", "PRIVMSG #y,#x :a b", "PRIVMSG @#y :hi", "NOTICE +#y :hi"] {
@@ -254,7 +255,9 @@ pub fn c10_scn(name: &str, full: bool) -> ChatScn {
     for t in ["JOIN #c", "PART #c", "PART #nochan,#c", "NICK {alt}", "USER other 8 * :x", "MODE #c -b bob!*@*", "MODE #c +b nobody", "MODE #c -m", "MODE #c +v bob"] {
         s.alphabet_for.push((1, t));
     }
-    for t in ["AWAY :gone fishing", "AWAY :back at five", "AWAY"] {
+    // (whether an empty away text marks the user away is the server's choice; if it says
+    // "marked as being away" and keeps the empty text, the empty text is what a sender is told)
+    for t in ["AWAY :gone fishing", "AWAY :back at five", "AWAY", "AWAY :"] {
         s.alphabet_for.push((2, t));
     }
     // mode/membership/nick/away steps are judged only on the state that determines who may speak
@@ -305,7 +308,7 @@ pub fn c10_pre_scn(name: &str, full: bool) -> ChatScn {
     for t in a {
         s.alphabet_for.push((0, t));
     }
-    s.focus = Focus::state_only(&[Cat::Membership, Cat::Ranks, Cat::ChanFlags]);
+    s.focus = Focus::state_only(&[Cat::Membership, Cat::Ranks, Cat::ChanFlags, Cat::ChanConfig]);
     s.invariants = vec!["rank-set", "membership-symmetry"];
     for slot in 0..3 {
         for t in ["PRIVMSG #m :x y", "NOTICE #m :x y", "PRIVMSG +#m :x"] {
@@ -340,14 +343,17 @@ pub fn c07_scn(name: &str, full: bool) -> ChatScn {
     s.prelude = vec![(0, "JOIN #c".into()), (2, "JOIN #c".into())];
     let mut a: Vec<&'static str> = vec!["MODE #c +i", "MODE #c -i", "MODE #c +k k", "MODE #c +k j", "MODE #c -k", "MODE #c +b bob!*@*", "MODE #c -b bob!*@*", "MODE #c +e bob!*@*", "MODE #c -e bob!*@*", "MODE #c +e zed!*@*", "MODE #c +I bob!*@*", "MODE #c -I bob", "MODE #c +l 1", "MODE #c +l 2", "MODE #c +l 3", "MODE #c -l", "INVITE bob #c", "INVITE bobby #c", "KICK #c bob",
         // a second invite-only channel: invitations are held per channel
-        "JOIN #d", "MODE #d +i", "INVITE bob #d"];
+        "JOIN #d", "MODE #d +i", "INVITE bob #d",
+        // ... and an invitation can outlive the channel it was for (the inviter leaves, the channel
+        // vanishes): the invited user's JOIN re-creates the channel and uses the invitation up
+        "PART #d"];
     if full {
         a.extend(["MODE #c +b *!*@127.0.0.1", "MODE #c -I bob!*@*", "MODE #c +I zed", "MODE #c +b bobby"]);
     }
     for t in a {
         s.alphabet_for.push((0, t));
     }
-    for t in ["JOIN #c", "JOIN #c k", "JOIN #c j", "JOIN #c wrong", "PART #c", "NICK {alt}", "MODE #c +b zed!*@*", "MODE #c -e bob!*@*", "MODE #c -i", "JOIN #q1", "JOIN #q2", "PART #q1", "JOIN #q1,#c", "JOIN #c,#q2 k,x"] {
+    for t in ["JOIN #c", "JOIN #c k", "JOIN #c j", "JOIN #c wrong", "PART #c", "NICK {alt}", "MODE #c +b zed!*@*", "MODE #c -e bob!*@*", "MODE #c -i", "JOIN #q1", "JOIN #q2", "PART #q1", "JOIN #q1,#c", "JOIN #c,#q2 k,x", "JOIN #d"] {
         s.alphabet_for.push((1, t));
     }
     s.focus = c07_focus();
@@ -685,6 +691,14 @@ pub fn c08_lists_enforce(full: bool) -> Vec<Script> {
         vec!["+e zed!*@*", "-e zed!*@*", "+b bob!*@*"],
         vec!["+b bob!*@*", "+v bob"],
         vec!["+m", "+v bob", "-v bob"],
+        // each flag that closes the channel to outsiders does so alone
+        vec!["+s"],
+        vec!["+s", "-s"],
+        vec!["+n"],
+        vec!["+n", "-n"],
+        vec!["+sn", "-n"],
+        vec!["+sn", "-s"],
+        vec!["+m"],
     ];
     if full {
         histories.extend(vec![
@@ -811,6 +825,22 @@ pub fn c09_matrix(full: bool) -> Vec<Script> {
         }
         out.push(Script { cfg: Cfg::default(), users: users(), prelude: p, slot: 3, line: "JOIN #c".into() });
     }
+    // "reaches exactly the invited user and grants one admission" to the channel it names:
+    // channel names are exact strings (#Cc and #cc are two channels), an invitation to one
+    // is filed under that name, admits there, and admits nowhere else
+    let two: Vec<(usize, String)> = vec![(0, "JOIN #Cc".into()), (0, "MODE #Cc +i".into()), (2, "JOIN #cc".into()), (2, "MODE #cc +i".into())];
+    out.push(Script { cfg: Cfg::default(), users: users(), prelude: two.clone(), slot: 0, line: "INVITE dave #Cc".into() });
+    let mut invited = two.clone();
+    invited.push((0, "INVITE dave #Cc".into()));
+    for l in ["JOIN #Cc", "JOIN #cc", "JOIN #CC"] {
+        out.push(Script { cfg: Cfg::default(), users: users(), prelude: invited.clone(), slot: 3, line: l.into() });
+    }
+    let mut used = invited.clone();
+    used.push((3, "JOIN #Cc".into()));
+    used.push((3, "PART #Cc".into()));
+    for l in ["JOIN #Cc", "JOIN #cc"] {
+        out.push(Script { cfg: Cfg::default(), users: users(), prelude: used.clone(), slot: 3, line: l.into() });
+    }
     out
 }
 
@@ -855,9 +885,11 @@ pub fn c15_scn(name: &str, full: bool) -> ChatScn {
     let mut s = ChatScn::new(name, oper_cfg(), vec![part(0, "uma", "ursula", "uu"), part(1, "alice", "alicia", "au"), part(2, "carol", "caro", "cu")], 1);
     // alice founds #y; uma will be a plain member there
     s.prelude = vec![(1, "JOIN #y".into())];
-    let mut u: Vec<&'static str> = vec!["JOIN #x", "JOIN #y", "MODE {me} +w", "MODE {me} +i", "AWAY :t", "OPER op oppw", "NICK {alt}", "NICK {peer}", "NICK #bad", "NICK a.b", "NICK .ab"];
+    let mut u: Vec<&'static str> = vec!["JOIN #x", "JOIN #y", "MODE {me} +w", "MODE {me} +i", "AWAY :t", "OPER op oppw", "NICK {alt}", "NICK {peer}", "NICK #bad", "NICK a.b", "NICK .ab",
+        // a registered client may query or request capabilities at any time; it stays registered
+        "CAP LS 302"];
     if full {
-        u.extend(["NICK a,b", "NICK ,ab", "NICK ::ab", "NICK &ab", "NICK {me}", "NICK fresh", "PART #x", "JOIN #z"]);
+        u.extend(["CAP REQ :multi-prefix", "NICK a,b", "NICK ,ab", "NICK ::ab", "NICK &ab", "NICK {me}", "NICK fresh", "PART #x", "JOIN #z"]);
     }
     for t in u {
         s.alphabet_for.push((0, t));
@@ -1062,16 +1094,19 @@ pub fn c16_ranks_scn(name: &str, full: bool) -> ChatScn {
 
 /// "within the max_joins quota": with max_joins = 1 a JOIN beyond the quota creates
 /// nothing, whether the channel exists or not.
-pub fn c16_quota_scn(name: &str) -> ChatScn {
+pub fn c16_quota_scn(name: &str, quota: usize) -> ChatScn {
     let mut cfg = oper_cfg();
-    cfg.max_joins = Some(1);
-    cfg.label = "oper+max_joins1".into();
+    cfg.max_joins = Some(quota);
+    cfg.label = format!("oper+max_joins{}", quota);
     let mut s = c16_scn(name, false);
     s.cfg = cfg;
     s.alphabet_for.clear();
+    // with room for two: list entries that join nothing (already a member, a repeated name) use
+    // up no quota - the new channel behind them is within the quota and is born
+    let lines: &[&'static str] = if quota == 1 { &["JOIN #x", "JOIN #y", "JOIN #x,#y", "PART #x", "PART #y", "QUIT"] } else { &["JOIN #x", "JOIN #x,#y", "JOIN #x,#x,#y", "JOIN #y,#z", "PART #x", "QUIT"] };
     for slot in 0..2 {
-        for t in ["JOIN #x", "JOIN #y", "JOIN #x,#y", "PART #x", "PART #y", "QUIT"] {
-            s.alphabet_for.push((slot, t));
+        for t in lines {
+            s.alphabet_for.push((slot, *t));
         }
     }
     s.goals = vec!["created", "destroyed"];
@@ -1369,7 +1404,8 @@ pub fn plan(property: &str, quick: bool) -> Plan {
             assumptions: vec![],
             parts: vec![
                 Part::Bfs(Box::new(c16_scn("c16-lifecycle", !quick)), lim(if quick { 7 } else { 7 }, 3_000_000, t(55.0, 900.0))),
-                Part::Bfs(Box::new(c16_quota_scn("c16-quota")), lim(if quick { 5 } else { 7 }, 1_000_000, t(10.0, 300.0))),
+                Part::Bfs(Box::new(c16_quota_scn("c16-quota", 1)), lim(if quick { 5 } else { 7 }, 1_000_000, t(10.0, 300.0))),
+                Part::Bfs(Box::new(c16_quota_scn("c16-quota-2", 2)), lim(if quick { 4 } else { 6 }, 1_000_000, t(10.0, 300.0))),
                 Part::Bfs(Box::new(c16_dup_scn("c16-repeated-names")), lim(if quick { 4 } else { 6 }, 1_000_000, t(10.0, 300.0))),
                 // a channel lives as long as a member does - whatever connections that never registered do
                 Part::Bfs(Box::new(super::ghost::ghost_scn("c16-ghost", &[Cat::ChanExistence, Cat::Membership, Cat::Ranks, Cat::Topic, Cat::UserExistence], !quick)), lim(if quick { 6 } else { 7 }, 2_000_000, t(20.0, 600.0))),
@@ -1400,7 +1436,8 @@ pub fn scenarios(property: &str) -> Vec<Box<dyn Scenario>> {
             "C15" => v.push(Box::new(c15_scn("c15-rename", full))),
             "C16" => {
                 v.push(Box::new(c16_scn("c16-lifecycle", full)));
-                v.push(Box::new(c16_quota_scn("c16-quota")));
+                v.push(Box::new(c16_quota_scn("c16-quota", 1)));
+                v.push(Box::new(c16_quota_scn("c16-quota-2", 2)));
                 v.push(Box::new(c16_dup_scn("c16-repeated-names")));
                 v.push(Box::new(c16_ranks_scn("c16-configured-ranks", full)));
                 v.push(Box::new(super::ghost::ghost_scn("c16-ghost", &[Cat::ChanExistence, Cat::Membership, Cat::Ranks, Cat::Topic, Cat::UserExistence], full)));
